@@ -212,6 +212,16 @@ func VerifC02_reload_added() {
 	wb := vrt.Param("WB", 256)
 	g0 := drawGslbConfC02(shape[0], wb)
 	gc := drawGslbConfC02(shape[1], wb)
+	// decide the sign pattern of the new weights by forking (a store inside the branch): Reload itself
+	// accumulates total/available-count without forking, and queries about one remainder by an
+	// if-then-else sum of three weights are ~50x slower than with the pattern fixed
+	pos := make([]bool, len(shape[1]))
+	for i, nm := range shape[1] {
+		if gc[nm] > 0 {
+			pos[i] = true
+		}
+	}
+	_ = pos
 	bal := NewBalanceGslb("c")
 	vrt.MapOrder(true)
 	vrt.Assert(bal.Init(g0) == nil, "C02/init-accepts-checked-conf")
